@@ -132,7 +132,10 @@ OSIM_NOSAN void * layeredAlloc(size_t size, bool zero) {
     else if (g_garbage) {
         unsigned char fill = (unsigned char)(r >> 8);
         if (fill == 0) fill = 0xA5;
-        memset(user, fill, size);
+        // Large blocks (the solver's arenas: 2-4 MB each, ~16 MB per instance) come from fresh zero pages in a real
+        // execution as well; filling them completely cost 50 ms of an otherwise 15 ms run. Stale contents are modelled
+        // where a real allocator produces them: in small blocks, and at the start of large ones.
+        memset(user, fill, size <= 65536 ? size : 32768);
     }
     return user;
 }
